@@ -420,8 +420,23 @@ class P(Prop):
     # ---- minCircle (util/geometrics.py: __welzl, __circle) with the random draws as an explicit parameter
     def rand_mc(self, rng):
         n = rng.choice([0, 1, 2, 3, 3, 4, 4, 5, 5, 6, 6, 7])
-        fam = rng.choice(["lattice", "lattice", "quarter", "wide"])
-        def coord():
+        fam = rng.choice(["lattice", "quarter", "wide", "flat", "flat", "witness"])
+        if fam == "witness" and n >= 3:
+            # the fixes of the known witnesses (stops-mincircle-not-enclosing / -none), moved, turned, scaled, shuffled
+            base = rng.choice([[(2, 1), (1, 1), (4, 1), (3, 2), (4, 0)], [(4, 0), (1, 0), (3, 2), (2, 2)],
+                               [(2, 3), (3, 1), (4, 2), (4, 4), (1, 5)], [(0, 2), (1, 1), (2, 3), (1, 2), (1, 4), (0, 4)]])
+            base = list(base)
+            rng.shuffle(base)
+            k, dx, dy, turn = rng.choice([1, 1, 2, 0.5]), rng.randrange(-3, 4), rng.randrange(-3, 4), rng.randrange(4)
+            def tf(x, y):
+                for _ in range(turn):
+                    x, y = -y, x
+                return [k * x + dx, k * y + dy, 0.0]
+            return {"kind": "mc", "pts": [tf(x, y) for x, y in base], "draws": [rng.randrange(0, 5040) for _ in range(rng.choice([7, 40]))],
+                    "form": rng.choice(["points", "track"])}
+        def coord(axis=0):
+            if fam == "flat":          # a narrow band: many obtuse triangles (the CANDIDATES step of __circle)
+                return float(rng.randrange(0, 9)) if axis == 0 else float(rng.randrange(0, 3))
             if fam == "lattice":
                 return float(rng.randrange(0, 6))
             if fam == "quarter":
@@ -434,7 +449,7 @@ class P(Prop):
                 b = rng.choice(pts)
                 pts.append([b[0], b[1], b[2] if zs == "zero" or rng.random() < 0.5 else float(rng.randrange(0, 4))])
             else:
-                pts.append([coord(), coord(), 0.0 if zs == "zero" else float(rng.randrange(0, 4))])
+                pts.append([coord(0), coord(1), 0.0 if zs == "zero" else float(rng.randrange(0, 4))])
         return {"kind": "mc", "pts": pts, "draws": [rng.randrange(0, 5040) for _ in range(rng.choice([1, 7, 40]))],
                 "form": "points" if n == 0 else rng.choice(["points", "track"])}
 
